@@ -656,3 +656,8 @@ class ScanMerge(_Delegate):
 @contract("genjax.core:Cond.merge", ["C16", "C01"])
 class CondMerge(_Delegate):
     method = "merge"
+
+from vt.contract import canary as _canary  # noqa: E402
+
+_canary(FnFilterLoop, "body[leaf]", "invariant_preserved/selected_leaves")
+_canary(FnMergeLoop, "body:leaf/leaf[no_check]", "invariant_preserved/result_values")
